@@ -93,6 +93,8 @@ func (c *C14) variants() map[string][]c14Variant {
 		})},
 		{"height", "minter", ttc(func(e *mhubtypes.TransferToChainEvent) { e.ExternalHeight = 101 })},
 		{"txhash", "minter", ttc(func(e *mhubtypes.TransferToChainEvent) { e.TxHash = "0xbb" })},
+		// the mirror value of the fee (nothing in Validate refuses a negative fee)
+		{"fee(negative mirror)", "minter", ttc(func(e *mhubtypes.TransferToChainEvent) { e.Fee = e.Fee.Neg() })},
 		{"amount(+2^64)", "minter", ttc(func(e *mhubtypes.TransferToChainEvent) { e.Amount = e.Amount.Add(pow2(64)) })},
 		{"amount(+2^128)", "minter", ttc(func(e *mhubtypes.TransferToChainEvent) { e.Amount = e.Amount.Add(pow2(128)) })},
 		{"amount+fee(+2^64)", "minter", ttc(func(e *mhubtypes.TransferToChainEvent) { e.Amount = e.Amount.Add(pow2(65)); e.Fee = e.Fee.Add(pow2(64)) })},
@@ -131,6 +133,7 @@ func (c *C14) variants() map[string][]c14Variant {
 		// optional fields shifted across their boundary: fee 31000 / no payer  vs  no fee / payer "31000"
 		{"feepaid 31000, empty feepayer", "ethereum", bee(func(e *mhubtypes.BatchExecutedEvent) { e.FeePaid = sdk.NewInt(31000); e.FeePayer = "" })},
 		{"feepaid absent, feepayer \"31000\"", "ethereum", bee(func(e *mhubtypes.BatchExecutedEvent) { e.FeePaid = sdk.Int{}; e.FeePayer = "31000" })},
+		{"feepaid(negative mirror)", "ethereum", bee(func(e *mhubtypes.BatchExecutedEvent) { e.FeePaid = e.FeePaid.Neg() })},
 		{"feepaid(+2^64)", "ethereum", bee(func(e *mhubtypes.BatchExecutedEvent) { e.FeePaid = e.FeePaid.Add(pow2(64)) })},
 		{"feepayer(upper-case hex)", "ethereum", bee(func(e *mhubtypes.BatchExecutedEvent) { e.FeePayer = "0x" + strings.ToUpper(r1[2:]) })},
 		{"feepayer(0X-prefixed)", "ethereum", bee(func(e *mhubtypes.BatchExecutedEvent) { e.FeePayer = "0X" + r1[2:] })},
@@ -189,7 +192,7 @@ func (c *C14) variants() map[string][]c14Variant {
 	for typ, l := range out {
 		var keep []c14Variant
 		for _, v := range l {
-			if strings.Contains(v.Name, "case") || strings.Contains(v.Name, "prefix") || strings.Contains(v.Name, "+2^") {
+			if strings.Contains(v.Name, "case") || strings.Contains(v.Name, "prefix") || strings.Contains(v.Name, "+2^") || strings.Contains(v.Name, "negative") {
 				if err := v.Ev.Validate(mhubtypes.ChainID(v.Chain)); err != nil {
 					c.inadmissible = append(c.inadmissible, typ+"."+v.Name)
 					continue
